@@ -53,6 +53,7 @@ type ProxyParams struct {
 	Acts         *RouteActs   // generated route actions (C17)
 	TimeoutProbe bool         // C17: requests whose upstream never answers measure the effective timeout
 	NoRefuse     bool         // every host accepts connections
+	UpIdleS      int          // cluster idle_timeout in seconds (0 = not configured): MOSN closes idle upstream connections itself
 	ShutdownMs   int          // C11: graceful stop is requested at this instant (0 = never)
 	DrainMs      int          // C11: drain timeout
 }
@@ -146,16 +147,24 @@ func DrawProxyParams(ch *sim.Choices, prop string) ProxyParams {
 			p.Filters = append(p.Filters, FilterSpec{Name: fmt.Sprintf("f%d", i), Phase: ch.Pick("params", "fphase", 4) - 1, Send: ch.Bool("params", "fsend")})
 		}
 	}
+	if p.Proto == "http2" && (prop == "C01" || prop == "C07") {
+		p.Faults, p.NoRefuse = false, true // the HTTP/2 reference peers script no upstream faults
+	}
 	if prop == "C08" {
 		p.Faults = true
 		p.Garbage = 1 + ch.Pick("params", "ngarbage", 3)
 		p.UpGarbage = ch.Bool("params", "upgarbage")
+		if p.Proto == "http2" {
+			// the HTTP/2 reference peers are well-behaved: the malformed input comes from the garbage clients only
+			p.Faults, p.UpGarbage, p.NoRefuse = false, false, true
+		}
 	}
 	if prop == "C09" || (p.Faults && ch.Chance("params", "idlecloses", 1, 3)) {
 		p.IdleCloses = ch.Pick("params", "nidlecloses", 4)
 	}
 	if prop == "C09" {
 		p.NConns = 2 + ch.Pick("params", "nconns9", 5)
+		p.UpIdleS = pickFrom(ch, "params", "upidle", []int{0, 0, 1, 20})
 	}
 	if p.Faults {
 		p.GlobalMs = pickFrom(ch, "params", "globalms", []int{0, 500, 200, 50, 1000})
@@ -182,6 +191,14 @@ func DrawProxyParams(ch *sim.Choices, prop string) ProxyParams {
 		p.DrainMs = pickFrom(ch, "params", "drain", []int{2000, 5000, 15000})
 		p.NConns = 1 + ch.Pick("params", "nconns11", 4)
 	}
+	for _, x := range p.Protos {
+		if x == "dubbo" {
+			// MOSN's dubbo codec has no one-way stream type (a request without the two-way flag is proxied as
+			// an ordinary request and answered with a timeout after 60 s) and exposes only the service-aware
+			// fields as headers, so the scripted filters cannot read their verdicts: neither is generated.
+			p.Oneway, p.Filters = false, nil
+		}
+	}
 	if prop == "C17" {
 		p.Acts = DrawRouteActs(ch, p.Proto)
 		p.ClientLeaves, p.Oneway, p.IdleCloses = false, false, 0
@@ -205,12 +222,16 @@ func protoChoices(prop string) []string {
 		return []string{"http1", "boltpp", "bolt"}
 	case "C11":
 		return []string{"bolt", "http1", "boltpp", "boltv2", "http2"}
+	case "C08", "C01", "C07":
+		return []string{"bolt", "http1", "boltpp", "boltv2", "dubbo", "http2"}
+	case "C02", "C03", "C10":
+		return []string{"bolt", "http1", "boltpp", "boltv2", "dubbo"}
 	}
 	return []string{"bolt", "http1", "boltpp", "boltv2"}
 }
 
 // protocols an Auto listener is exercised with (boltpp shares bolt's magic byte and is left out)
-var autoProtos = []string{"bolt", "boltv2", "http1"}
+var autoProtos = []string{"bolt", "boltv2", "http1", "dubbo"}
 
 func autoAllowed(prop string) bool {
 	return os.Getenv("VERIF_PROTO") == "" && (prop == "C07" || prop == "C08" || prop == "C01" || prop == "C02")
@@ -245,6 +266,9 @@ func (w *Proxy) buildConfig() []byte {
 	}
 	if p.ConnTimeoutS > 0 {
 		cluster["connect_timeout"] = fmt.Sprintf("%ds", p.ConnTimeoutS)
+	}
+	if p.UpIdleS > 0 {
+		cluster["idle_timeout"] = fmt.Sprintf("%ds", p.UpIdleS)
 	}
 	cb := J{}
 	if p.MaxConns > 0 {
@@ -333,6 +357,9 @@ func (w *Proxy) replyBuilder(u *peers.XUpstream, r *peers.ReqRec, up *peers.UpRe
 	f := &peers.XFrame{IsReq: false, Class: "com.verif.Resp", Status: u.Codec.SuccessStatus()}
 	if up.Act.Err {
 		f.Status = 2 // server exception, carries the token nevertheless
+		if u.Codec.Name() == "dubbo" {
+			f.Status = 70 // SERVICE_ERROR
+		}
 	}
 	f.Headers = []peers.KV{{K: "tok", V: r.Token}, {K: "host", V: u.Host}, {K: "att", V: fmt.Sprint(up.Att)}}
 	n := len(r.Frame) % 97
@@ -799,6 +826,9 @@ func (w *Proxy) setupXClient(ci int, proto string, reqIdxP *int) {
 			f := &peers.XFrame{IsReq: true, Oneway: r.Oneway, ID: r.ID, Class: "com.verif.Req", Body: body}
 			if p.ProtoTimeout {
 				f.Timeout = int32(pickFrom(ch, "work", "ptimeout", []int{0, 30, 300, 3000}))
+				if proto == "dubbo" {
+					f.Timeout = 0 // the dubbo frame has no timeout field
+				}
 			}
 			svc := fmt.Sprintf("svc%d", k%3)
 			if p.Acts != nil {
@@ -973,10 +1003,13 @@ func (a *autoUp) OnData(c *sim.Conn, b []byte) {
 			u := w.newH2Upstream(a.host)
 			u.Start(c)
 			a.impl = u
-		case b[0] == 1 || b[0] == 2:
+		case b[0] == 1 || b[0] == 2 || b[0] == 0xda:
 			proto := "bolt"
 			if b[0] == 2 {
 				proto = "boltv2"
+			}
+			if b[0] == 0xda {
+				proto = "dubbo"
 			}
 			u := &peers.XUpstream{S: w.S, H: w.H, Codec: peers.CodecFor(proto), Host: a.host, ReplyBuilder: w.replyBuilder}
 			u.OnConnect(c)
@@ -1056,6 +1089,14 @@ func (w *Proxy) setupGarbage() {
 			default:
 				g.Payload, g.Kind = peers.Corrupt("http1", valid, ch)
 			}
+		} else if proto == "http2" {
+			e := peers.NewH2End(s, w.H, g.Name, false, peers.H2Opts{InitWin: 65535, MaxFrame: 16384, TableSize: 4096, Chunk: []int{0}, Grant: []uint32{1}, GrantGap: []time.Duration{0}})
+			e.Start(nil)
+			m := &peers.H1Msg{IsReq: true, Method: "POST", Target: "/g", Body: []byte("garbage-body-" + tok),
+				Headers: []peers.KV{{K: "x-tok", V: tok}, {K: "service", V: "svc0"}}}
+			e.SendMessage(e.PrepareStream(), peers.FieldsOf(m, "svc.test"), m.Body)
+			valid = e.Unflushed()
+			g.Payload, g.Kind = peers.Corrupt("http2", valid, ch)
 		} else {
 			f := &peers.XFrame{IsReq: true, ID: uint64(7000 + gi), Class: "com.verif.Req", Body: []byte("garbage-body-" + tok),
 				Headers: []peers.KV{{K: "service", V: "svc0"}, {K: "tok", V: tok}}}
